@@ -85,6 +85,12 @@ def applicable_actions(tmpl, acts, with_ids):
     return al
 
 
+# set by the harness factories from their `known` list (F16: a value newly
+# written by local and one newly written by remote are Python-equal but of
+# different JSON type)
+F16_EXCLUDE = [False]
+
+
 def gen_triple(E, templates, acts_l, acts_r, ins_l, ins_r, nbacts, ids, sym, conflict_only=False):
     with_ids = ids[E.choice("ids", len(ids))] if len(ids) > 1 else ids[0]
     ctx = G.Ctx(E, bool(with_ids), sym=sym)
@@ -109,6 +115,11 @@ def gen_triple(E, templates, acts_l, acts_r, ins_l, ins_r, nbacts, ids, sym, con
             E.assume(False)
     L = G.derive(ctx, base, "l", sl, insl, nl)
     R = G.derive(ctx, base, "r", sr, insr, nr)
+    if F16_EXCLUDE[0]:
+        from sx.values import py_equal
+        for x in ctx.fresh_leaves.get("l", []):
+            for y in ctx.fresh_leaves.get("r", []):
+                E.assume(implies(py_equal(x, y), json_identical(x, y)))
     info = dict(with_ids=with_ids, sl=sl, sr=sr, insl=insl, insr=insr, nl=nl, nr=nr, ctx=ctx)
     return G.finalize(base), G.finalize(L), G.finalize(R), info
 
@@ -266,13 +277,16 @@ def _walk_entries(diff):
 # ------------------------------------------------------------------ factories
 def make_default(templates, acts="ACTS_CODE", ins=(1, 1), nbacts=("keep",), ids=(0, 1), tool="git",
                  strat=("inline", None, None, True), props=("C03",), known=(),
-                 sym=("ec", "md", "json", "minor"), conflict_only=False, runs=False):
+                 sym=("ec", "md", "json", "minor"), conflict_only=False, runs=False, sameid=False):
     """One strategy configuration, full product of local x remote scripts."""
     acts_ = globals()[acts]
 
     def h(E):
         install_env(tool)
+        F16_EXCLUDE[0] = "F16" in known
         src = INS_RUNS if runs else INS_SIDE
+        if sameid:
+            src = {"l": [None, ("Nxc", 0)], "r": [None, ("Nxm", 0), ("Nxc", 0)]}
         b, l, r, info = gen_triple(
             E, templates, acts_, acts_,
             src["l"] if ins[0] else [None], src["r"] if ins[1] else [None],
@@ -366,6 +380,10 @@ ACTS_KEEP = ["keep"]
 ACTS_TRANSIENT = ["keep", "md_del_collapsed", "md_collapsed", "md_scrolled_true", "md_scrolled_auto", "md_edit", "ec",
                   "del", "src1", "collapsed_src", "md_src"]
 ACTS_INTKEYS = ["keep", "att_edit_1", "att_edit", "md_edit_2024", "md_edit_note", "src1"]
+ACTS_STALE = ["keep", "unstale_edit", "md_edit", "att_edit", "src1"]
+ACTS_TYPE = ["keep", "to_md", "rerun", "out_edit", "ec", "src1", "md_edit"]
+ACTS_NUMS = ["keep", "nums_add", "nums_append", "nums_replace"]
+ACTS_NUL = ["keep", "src1", "src2", "del"]
 ACTS_LONG = ["keep", "src1", "src2", "src3", "src4", "src7", "src8", "src9", "del"]
 ACTS_OUTS = ["keep", "out_add_front", "out_ec", "out_del", "out_del_last", "out_edit", "out_add", "out_add2", "rerun",
              "rerun2", "out_edit_add", "out_edit2_add2", "out_edit_md", "edit_rerun", "del"]
@@ -397,6 +415,12 @@ def scenario_shards(tier, tool, kw):
     add("unicode", templates=("codeU",), acts="ACTS_LINES", ins=(0, 0))
     add("lines", templates=("codeA",), acts="ACTS_LINES", ins=(0, 0))
     add("intkeys", templates=("mdAtt1",), acts="ACTS_INTKEYS", ins=(0, 0))
+    add("stale-md", templates=("codeStale",), acts="ACTS_STALE", ins=(0, 0))
+    add("stale-att", templates=("mdStale",), acts="ACTS_STALE", ins=(0, 0))
+    add("type", templates=("codeA",), acts="ACTS_TYPE", ins=(0, 0), ids=(1,))
+    add("nums", templates=("codeNums",), acts="ACTS_NUMS", ins=(0, 0))
+    add("nul", templates=("codeNul",), acts="ACTS_NUL", ins=(0, 0))
+    add("sameid", templates=(), acts="ACTS_KEEP", ins=(1, 1), ids=(1,), sameid=True)
     if tier == "thorough":
         add("runs-pair", templates=("codeA", "codeB"), acts="ACTS_KEEP", ins=(1, 1), runs=True)
         add("lol", templates=("codeLol",), acts="ACTS_SMALL", ins=(0, 0))
@@ -872,3 +896,20 @@ BOUNDS = {
 OUTSIDE = ["more than two base cells (three in the ownership harness) and more than one insertion per side",
            "string contents outside the pools of gen/notebooks.py", "merges of notebooks of different major versions",
            "base notebooks without ids merged with sides that upgraded to ids"]
+
+
+def f16_witness(chk, known):
+    """KNOWN-FINDING line for F16 in the checks that ride on the merge family:
+    the class is excluded from the exploration by a solver assumption; this
+    small run (without the exclusion) asks for an instance and replays it."""
+    if "F16" not in known:
+        return
+    from sx import runner
+    w = runner.explore_inline(make_default(templates=("codeNums",), acts="ACTS_NUMS", ins=(0, 0), ids=(0,),
+                                           props=("C03",), known=()), max_violations=1, budget_s=400)
+    for v in w.violations:
+        if "agreed merges should not be conflicted" in str(v.get("info")):
+            chk.known_finding("F16", "both sides insert Python-equal values of different JSON type into a metadata list "
+                              "(model %r): %s" % ({k: v["values"][k] for k in sorted(v["values"]) if k.startswith("md_")},
+                                                  str(v["info"])[:90]))
+            return
